@@ -3006,9 +3006,10 @@ class PyCdlib:
 
         outfp.seek(self.pvd.extent_location() * self.logical_block_size)
 
-        # First write out the PVDs.
-        for pvd in self.pvds:
-            rec = pvd.record()
+        # First write out the PVDs.  All of the copies are identical, also in the
+        # modification date that is taken when the record is generated.
+        rec = self.pvd.record()
+        for pvd_unused in self.pvds:
             self._outfp_write_with_check(outfp, rec)
             progress.call(len(rec))
 
